@@ -19,8 +19,8 @@ func init() {
 
 type urlCase struct {
 	label string
-	raw   []string // raw (unescaped) occurrences; nil = parameter absent
-	bad   bool     // not convertible to the field's kind
+	raw   []string                                                      // raw (unescaped) occurrences; nil = parameter absent
+	bad   bool                                                          // not convertible to the field's kind
 	want  func(m protoreflect.Message, fd protoreflect.FieldDescriptor) // sets the expected value
 }
 
